@@ -26,10 +26,10 @@ BOUNDS = {"quick": "CharacteristicControl.is_converged for 1-2 elements; discret
 TMIN, TMAX = -2, 2
 
 
-def _mk(cls, coeff_sign, n):
+def _mk(cls, coeff_sign, n, tap_sign=1):
     c = object.__new__(cls)
     c.tap_side_coeff = np.full(n, coeff_sign)
-    c.tap_sign = np.full(n, 1)
+    c.tap_sign = np.full(n, tap_sign)          # sign of cos(tap_step_degree): -1 for phase shifts in (90, 270) degrees
     c.tap_min = np.full(n, TMIN)
     c.tap_max = np.full(n, TMAX)
     c.element = "trafo"
@@ -42,12 +42,13 @@ def _mk(cls, coeff_sign, n):
     return c
 
 
-def make_discrete(coeff_sign, taps):
+def make_discrete(coeff_sign, taps, tap_sign=1):
     n = len(taps)
+    side_coeff, coeff_sign = coeff_sign, coeff_sign * tap_sign      # the effective direction is the product (both sites of the controller)
 
     def fn(ctx):
         mod = ctx.load("pandapower.control.controller.trafo.DiscreteTapControl")
-        c = _mk(mod.DiscreteTapControl, coeff_sign, n)
+        c = _mk(mod.DiscreteTapControl, side_coeff, n, tap_sign)
         vm = ctx.array([ctx.var(f"vm{i}", 0.8, 1.2) for i in range(n)])
         lo = ctx.var("vm_lower", 0.9, 1.05)
         up = ctx.var("vm_upper", 0.9, 1.1)
@@ -88,10 +89,12 @@ def make_discrete(coeff_sign, taps):
     return fn
 
 
-def make_continuous(coeff_sign, tap0):
+def make_continuous(coeff_sign, tap0, tap_sign=1):
+    side_coeff, coeff_sign = coeff_sign, coeff_sign * tap_sign
+
     def fn(ctx):
         mod = ctx.load("pandapower.control.controller.trafo.ContinuousTapControl")
-        c = _mk(mod.ContinuousTapControl, coeff_sign, 1)
+        c = _mk(mod.ContinuousTapControl, side_coeff, 1, tap_sign)
         vm = ctx.array([ctx.var("vm", 0.8, 1.2)])
         vset = ctx.var("vm_set", 0.95, 1.05)
         tol = ctx.var("tol", 1e-4, 1e-2)
@@ -273,6 +276,12 @@ def instances(tier):
         for t0 in (TMIN, None, TMAX):
             out.append(Inst(f"continuous_cs{cs}_tap{t0}", make_continuous(cs, t0), nvars=12, samples=3,
                             meta=dict(controller="ContinuousTapControl", coeff_sign=cs, tap_pos=t0)))
+        for taps in ((TMIN,), (TMAX,), (TMIN, TMAX)):        # tap changer whose phase shift reverses the voltage effect (tap_sign -1)
+            out.append(Inst(f"discrete_cs{cs}_negative_tap_sign_taps{'_'.join(map(str, taps))}", make_discrete(cs, taps, -1), nvars=10, samples=3,
+                            meta=dict(controller="DiscreteTapControl", coeff_sign=cs, tap_sign=-1, tap_pos=taps)))
+        for t0 in (TMIN, TMAX):
+            out.append(Inst(f"continuous_cs{cs}_negative_tap_sign_tap{t0}", make_continuous(cs, t0, -1), nvars=12, samples=3,
+                            meta=dict(controller="ContinuousTapControl", coeff_sign=cs, tap_sign=-1, tap_pos=t0)))
     for n_, ap in ((1, True), (2, True), (1, False)):
         out.append(Inst(f"characteristic_{n_}el_applied{int(ap)}", make_characteristic(n_, ap), nvars=12, samples=3,
                         meta=dict(controller="CharacteristicControl", elements=n_, applied=ap)))
